@@ -327,6 +327,9 @@ func runScenario(d *Driver, sc Scenario, timeout time.Duration, oracle bool, res
 	var obs []StepObs
 	armed := false
 	var armedSpec *FaultSpec
+	var firstDiv *Divergence // once set, the model is no longer consulted: the rest of the scenario
+	// is run on the implementation with the specification oracle and the probe only, to look for a
+	// concrete input on which the property itself fails
 	diverge := func(i int, what, impl, model string) *Divergence {
 		return &Divergence{Scenario: sc.ID, Step: i, What: what, Impl: impl, Model: model, Script: append([]string{}, d.Script...), Desc: descs}
 	}
@@ -446,22 +449,33 @@ func runScenario(d *Driver, sc Scenario, timeout time.Duration, oracle bool, res
 		if sc.Probe != nil {
 			res.Probed = append(res.Probed, sc.Probe(sc, i, st, d, obs[i])...)
 		}
+		res.Descs = descs
+		if firstDiv != nil {
+			if armed {
+				d.Send("nofault", 0)
+				armed = false
+			}
+			continue
+		}
 		r4 := d.Send(fmt.Sprintf("feed %s %s", s.Conn, hx(append(append([]byte{}, data...), sent...))), 4)
 		implOut := fmt.Sprintf("out %s %s", canonN(256, out), ending)
-		res.Descs = descs
 		if r4[0] != implOut {
-			return diverge(i, "reply", implOut, r4[0]), false, obs
+			firstDiv = diverge(i, "reply", implOut, r4[0])
+			continue
 		}
 		// (the in-process backend has no request stream to observe)
 		if t := "trace1 " + traceLine(l1); sc.Stack.L1 != "inmem" && strings.TrimSpace(t) != strings.TrimSpace(r4[1]) {
-			return diverge(i, "L1 requests", t, r4[1]), false, obs
+			firstDiv = diverge(i, "L1 requests", t, r4[1])
+			continue
 		}
 		if t := "trace2 " + traceLine(l2); strings.TrimSpace(t) != strings.TrimSpace(r4[2]) {
-			return diverge(i, "L2 requests", t, r4[2]), false, obs
+			firstDiv = diverge(i, "L2 requests", t, r4[2])
+			continue
 		}
 		if sc.Stack.Locked != "none" {
 			if t := "locks " + strings.Join(lockLog, " "); strings.TrimSpace(t) != strings.TrimSpace(r4[3]) {
-				return diverge(i, "lock events", t, r4[3]), false, obs
+				firstDiv = diverge(i, "lock events", t, r4[3])
+				continue
 			}
 		}
 		if armed {
@@ -512,12 +526,13 @@ func runScenario(d *Driver, sc Scenario, timeout time.Duration, oracle bool, res
 			got := d.Send(fmt.Sprintf("dump %s %s", tf.name, strings.Join(hk, " ")), 1)
 			want := fmt.Sprintf("dump %s %s", tf.name, strings.Join(parts, " "))
 			if got[0] != want {
-				return diverge(i, tf.name+" contents", want, got[0]), false, obs
+				firstDiv = diverge(i, tf.name+" contents", want, got[0])
+				break
 			}
 		}
 
 	}
-	return nil, false, obs
+	return firstDiv, false, obs
 }
 
 func sortStrings(xs []string) {
